@@ -200,27 +200,17 @@ Proof.
     [|destruct (Z.eq_dec j (i + 1)) as [B|B];
       [|destruct (Z.eq_dec j i) as [C|C]; [|destruct (Z.eq_dec j (i - 1)) as [E|E]]]].
   - (* j >= i+2 *)
-    zconds; z2r.
-    all: tp_rw (IZR i); canon (IZR j).
-    all: gen_atoms. all: field. all: apply PI_neq0.
+    zconds; z2r; tp_rw (IZR i); canon (IZR j); gen_atoms; field; apply PI_neq0.
   - (* j = i+1 *)
     assert (Ec : IZR j = IZR i + 1) by (rewrite B, plus_IZR; reflexivity).
-    zconds; z2r.
-    all: tp_rw (IZR i); canon (IZR j); vanish (IZR i) (IZR j).
-    all: gen_atoms. all: field. all: apply PI_neq0.
+    zconds; z2r; tp_rw (IZR i); canon (IZR j); vanish (IZR i) (IZR j); gen_atoms; field; apply PI_neq0.
   - (* j = i *)
     assert (Ec : IZR j = IZR i) by (rewrite C; reflexivity).
-    zconds; z2r.
-    all: tp_rw (IZR i); canon (IZR j); vanish (IZR i) (IZR j).
-    all: gen_atoms. all: field. all: apply PI_neq0.
+    zconds; z2r; tp_rw (IZR i); canon (IZR j); vanish (IZR i) (IZR j); gen_atoms; field; apply PI_neq0.
   - (* j = i-1 *)
     assert (Ec : IZR j = IZR i - 1) by (rewrite E, minus_IZR; reflexivity).
-    zconds; z2r.
-    all: tp_rw (IZR i); canon (IZR j); vanish (IZR i) (IZR j).
-    all: gen_atoms. all: field. all: apply PI_neq0.
+    zconds; z2r; tp_rw (IZR i); canon (IZR j); vanish (IZR i) (IZR j); gen_atoms; field; apply PI_neq0.
   - (* j <= i-2 *)
     assert (Ec : IZR j <= IZR i - 2) by (rewrite <- minus_IZR; apply IZR_le; lia).
-    zconds; z2r.
-    all: vanish (IZR i) (IZR j).
-    all: gen_atoms. all: field. all: apply PI_neq0.
+    zconds; z2r; vanish (IZR i) (IZR j); gen_atoms; field; apply PI_neq0.
 Qed.
